@@ -157,6 +157,40 @@ def _torch_samplers(ctx, impl, rng):
     ctx.count('torch-stat:N1-classes')
     if len(cls) != 24 or chi > 23 + 2 * math.sqrt(23 * x) + 2 * x:
         ctx.fail('torch.random_clifford_map', 'N=1: the 24 one-qubit Clifford maps are not equally likely (%d classes, chi2 %.1f)' % (len(cls), chi), dict(T=T))
+    # N = 3 (beyond the exact enumerations): the image of every generator is uniform over the 63 non-identity strings
+    T3 = 63 * 40
+    tall = [dict() for _k in range(6)]
+    for _ in range(T3):
+        g3 = TU.random_clifford(3).tolist()
+        for k_ in range(6):
+            key = tuple(ival(v) for v in g3[k_])
+            tall[k_][key] = tall[k_].get(key, 0) + 1
+    for k_, tl in enumerate(tall):
+        chi3 = sum((v - T3 / 63) ** 2 / (T3 / 63) for v in tl.values()) + (63 - len(tl)) * (T3 / 63)
+        ctx.count('torch-stat:N3-rows')
+        if len(tl) > 63 or chi3 > 62 + 2 * math.sqrt(62 * x) + 2 * x:
+            ctx.fail('torch.random_clifford', 'N=3: the image of generator %d is not uniform over the 63 non-identity strings (%d strings seen in %d draws, chi2 %.1f)' % (k_, len(tl), T3, chi3), dict(T=T3, row=k_)); break
+    # random_pauli(2) on the real RNG path (resampling of identity first strings included): the 36 products of one-qubit string
+    # tables are equally likely, i.e. the two qubits are independent
+    Tp = 36 * 300
+    cellp = {}
+    for _ in range(Tp):
+        key = tuple(tuple(ival(v) for v in g) for g in TU.random_pauli(2).tolist())
+        cellp[key] = cellp.get(key, 0) + 1
+    chip = sum((v - Tp / 36) ** 2 / (Tp / 36) for v in cellp.values()) + (36 - len(cellp)) * (Tp / 36)
+    ctx.count('torch-stat:pauli2-cells')
+    if len(cellp) > 36 or chip > 35 + 2 * math.sqrt(35 * x) + 2 * x:
+        ctx.fail('torch.random_pauli', 'random_pauli(2): the 36 products of one-qubit tables are not equally likely on the real RNG path (%d tables in %d draws, chi2 %.1f): the qubits are not independent'
+                 % (len(cellp), Tp, chip), dict(T=Tp))
+    # a sharper one-parameter statistic for the same claim: the images of X_0 and X_1 carry the same letter with probability 1/3
+    # (exact Chernoff bound: P(freq deviates to f) <= exp(-T * KL(f || 1/3)))
+    same = sum(v for key, v in cellp.items() if (key[0][0], key[0][1]) == (key[2][2], key[2][3]))
+    f_ = same / Tp
+    kl = (f_ * math.log(f_ / (1 / 3)) + (1 - f_) * math.log((1 - f_) / (2 / 3))) if 0 < f_ < 1 else 1.0
+    ctx.count('torch-stat:pauli2-same-letter')
+    if Tp * kl > math.log(2e9):
+        ctx.fail('torch.random_pauli', 'random_pauli(2): the images of X_0 and X_1 carry the same letter in %.4f of %d draws (independent uniform one-qubit tables give 1/3): the qubits are correlated'
+                 % (f_, Tp), dict(T=Tp, same=same))
     T2 = 720 * (4 if ctx.tier == 'quick' else 60)
     cls2 = {}
     for _ in range(T2):
